@@ -419,6 +419,26 @@ def c02(tier='quick', seed=0):
         r = check_non_rule(v)
         if r:
             viol.append({'key': 'parse_rule(%r)' % (v,), 'detail': r})
+    # what a text parses to may not depend on what was parsed before: after the legal list rules [], ['@'], [['@']] and
+    # a null value have been parsed, the texts that merely LOOK like them are still not sentences of the language
+    from oslo_policy import _parser as _p2, _checks as _c2
+    for lst in ([], ['@'], [['@']], [[], ['@']], ['@', '@'], None):
+        try:
+            _p2.parse_rule(lst)
+        except Exception:       # noqa
+            pass
+        text = str(lst)
+        ev += 1
+        nt += 1
+        try:
+            chk = _p2.parse_rule(text)
+            d = bool(_c2._check(chk, {}, {'roles': []}, None, None))
+        except Exception as e:  # noqa
+            d = 'raised %s' % type(e).__name__
+        if d is not False:
+            viol.append({'key': 'parse_rule(%r) after parse_rule(%r)' % (text, lst),
+                         'detail': 'after the list rule %r had been parsed, the text %r decided %r (it is not a sentence of the '
+                                   'language and must deny)' % (lst, text, d)})
     # list-of-lists rules holding leaves that are not of the form kind:match (blank strings, words without a colon):
     # such a leaf behaves as `!`, it is never skipped
     for rule in ([['']], [['', '']], [[''], []], [['role:r0'], ['']], [['role:r0', '']], [['@', '']], ['', ['']], [['nocolon']],
@@ -560,6 +580,37 @@ def c15(tier='quick', seed=0):
         if sorted(R) != sorted(R2) or any(str(R[x]) != str(R2[x]) for x in R) or str(R2) != dumped:
             viol.append({'key': repr(d), 'detail': 'rule set %r dumps to %r which loads as %r' % (
                 d, dumped, {x: str(R2[x]) for x in R2})})
+            if len(viol) >= 5:
+                break
+    # a rule set that was dumped once, then changed through any dict method, dumps as it is NOW
+    for i in range(60 if tier == 'quick' else 600):
+        d1 = {'n%d' % j: rng.choice(['', '@', rand_expr(rng, 2, leaves[:6])]) for j in range(rng.randint(1, 4))}
+        d2 = {'n%d' % j: rng.choice(['!', rand_expr(rng, 2, leaves[:6])]) for j in range(rng.randint(1, 5))}
+        ev += 1
+        nt += 1
+        R = policy.Rules.from_dict(d1)
+        str(R)
+        how = rng.choice(['update', 'pop', 'setdefault', 'clear', 'setitem', 'set_rules'])
+        if how == 'update':
+            R.update(policy.Rules.from_dict(d2))
+        elif how == 'pop':
+            R.pop(sorted(R)[0])
+        elif how == 'setdefault':
+            R.setdefault('zz', policy._parser.parse_rule('role:zz'))
+        elif how == 'clear':
+            R.clear()
+        elif how == 'setitem':
+            R['n0'] = policy._parser.parse_rule('role:changed')
+        else:
+            from bounded.enforce import mk_enforcer
+            e_ = mk_enforcer(rules=R)
+            e_.set_rules(policy.Rules.from_dict(d2), overwrite=False, use_conf=False)
+            R = e_.rules
+        dumped = str(R)
+        R2 = policy.Rules.load(dumped)
+        if sorted(R) != sorted(R2) or any(str(R[x]) != str(R2[x]) for x in R):
+            viol.append({'key': repr((d1, how, d2)), 'detail': 'rule set %r dumped once, then changed by %s (%r): its dump %r loads '
+                                                               'as %r' % (d1, how, d2, dumped, {x: str(R2[x]) for x in R2})})
             if len(viol) >= 5:
                 break
     # RuleDefault equality relies on the printed form
